@@ -40,6 +40,7 @@ from core import tok_expr  # noqa: E402
 import tensorlib as tl  # noqa: E402
 import tbubblelib as bl  # noqa: E402
 import thistlib as th  # noqa: E402
+import tdtypelib as dt  # noqa: E402
 from tensorlib import eff, size, exact_eq  # noqa: E402
 
 PROP = "C09"
@@ -236,7 +237,7 @@ def new_arrays(rng, case, rename):
     return ("mk", dom, cod, nboxes, offsets), ars2
 
 
-def oracle(rep, rng, case, desc, real_value, real_answer):
+def oracle(rep, rng, case, desc, real_value, real_answer, extra=None):
     from discopy import monoidal, tensor
     from discopy.rewriting import InterchangerError
     orc = Oracle(rep, case, desc)
@@ -385,6 +386,62 @@ def oracle(rep, rng, case, desc, real_value, real_answer):
         rep.count("oracle.skipped:inexact")
     except Exception as exc:
         orc.fail("bubble_pair:raises", "%r" % (exc,))
+    if extra is None:
+        return
+    # (g) the functor / eval applied to bare box OBJECTS; (h) formal sums with 0..3 terms, typed
+    rng2, reqs, answers = extra
+    try:
+        dt.bare_box_checks(rep, case, desc, d, F, reqs, answers)
+    except tl.Inexact:
+        rep.count("oracle.skipped:inexact")
+    except Exception as exc:
+        orc.fail("bare_box:raises", "%r" % (exc,))
+    try:
+        dt.sum_checks(rep, rng2, case, desc, sum_variants(rng2, case))
+    except tl.Inexact:
+        rep.count("oracle.skipped:inexact")
+    except Exception as exc:
+        orc.fail("sum_typed:raises", "%r" % (exc,))
+
+
+def sum_variants(rng, case):
+    """The diagram of the case and two copies with fresh arrays (rigid: renamed boxes), their references,
+    and ONE functor that interprets them all."""
+    from discopy import tensor
+    fam = case.family
+    cs, cur = [case], case
+    for _ in range(2):
+        e2, ars2 = new_arrays(rng, cur, rename=(fam == "rigid"))
+        cur = tl.FCase(fam, e2, case.ob, ars2, case.ob_style, case.ar_style)
+        cs.append(cur)
+    if fam == "rigid":
+        allars = list(case.ars) + [x for c in cs[1:] for x in c.ars if not isinstance(x[1], tuple)]
+        F = tl.FCase(fam, case.e, case.ob, allars, case.ob_style, case.ar_style).real_functor()
+    else:
+        F = tensor.Functor(ob=lambda x: x, ar=lambda f: f.array)
+    return [(c, c.real_diagram(), c.ref_layers(), F) for c in cs]
+
+
+def make_dtype_cases(seed, quick):
+    rng = random.Random((seed << 8) ^ 0xD7E9E5)
+    out = []
+    for k in range(90 if quick else 900):
+        subseed = rng.getrandbits(64)
+        sub = random.Random(subseed)
+        case = dt.dtype_case(sub, k, quick)
+        if case is not None:
+            out.append((case, subseed, sub))
+    return out
+
+
+def run_dtypes(rep, dcases, answers):
+    for (case, subseed, sub), model in zip(dcases, answers):
+        try:
+            dt.run_dtype_case(rep, sub, case, subseed, model)
+        except tl.Inexact:
+            rep.count("dtypes:skipped:inexact")
+        except Exception as exc:
+            rep.fail("c09:dtypes:raises", dt.describe(case, subseed), "%r" % (exc,))
 
 
 # ------------------------------------------------------------------ diagrams with bubbles
@@ -996,8 +1053,25 @@ def run(tier, seed, replay=None):
     bcases = make_bubble_cases(seed, quick)
     hists, rots = make_histories(seed, quick)
     hlines, hwhere = history_lines(hists)
+    dcases = make_dtype_cases(seed, quick)
+    n_extra = 120 if quick else 1200
+    bare = []
+    for case, _, subseed, _ in cases[:n_extra]:
+        r2 = random.Random(subseed ^ 0xBA5EB0C5)
+        reqs, blines = dt.bare_box_requests(r2, case)
+        bare.append((r2, reqs, blines))
     drv = tl.Asker()
     try:
+        didx = [i for i, (c, _, _) in enumerate(dcases) if not c.has_symbols() and c.integral()]
+        dans = [None] * len(dcases)
+        for i, a in zip(didx, drv.ask_many([dcases[i][0].line("feval") for i in didx])):
+            dans[i] = a
+        flat = drv.ask_many([ln for _, _, blines in bare for ln in blines])
+        extras, pos = [], 0
+        for r2, reqs, blines in bare:
+            extras.append((r2, reqs, flat[pos:pos + len(blines)]))
+            pos += len(blines)
+        extras += [None] * (len(cases) - len(extras))
         hans = drv.ask_many(hlines)
         bidx = [i for i, (c, _, _) in enumerate(bcases) if c.exact]
         bans = [None] * len(bcases)
@@ -1021,8 +1095,8 @@ def run(tier, seed, replay=None):
         rep.extra["driver_restarts"] = drv.restarts
     hyp = {"met": 0, "not_met": 0, "other": 0}
     layers_agree = 0
-    for (case, info, subseed, sub), line, model, lay, gen in zip(
-            cases, lines, answers, layers, genuine):
+    for (case, info, subseed, sub), line, model, lay, gen, extra in zip(
+            cases, lines, answers, layers, genuine, extras):
         fam = case.family
         value = [None]
 
@@ -1083,11 +1157,14 @@ def run(tier, seed, replay=None):
                          "accepted by discopy: " + real[:200], gen[:300])
         # ---- oracle
         try:
-            oracle(rep, sub, case, desc, value[0], real)
+            oracle(rep, sub, case, desc, value[0], real, extra)
         except tl.Inexact:
             rep.count("oracle.skipped:inexact")
     rep.extra["theorem_hypotheses_met"] = hyp
     rep.extra["layers_model_agreements"] = layers_agree
+    run_dtypes(rep, dcases, dans)
+    rep.extra["dtype_model_comparisons"] = rep.dist.get("dtypes:model_compared", 0)
+    rep.extra["bare_box_model_comparisons"] = rep.dist.get("bare_box:model_compared", 0)
     run_bubbles(rep, bcases, bans)
     run_histories(rep, hists, rots, hans, hwhere)
     rep.extra["history_model_comparisons"] = rep.dist.get("history:model_compared", 0)
